@@ -403,6 +403,37 @@ template <class V, class T, class Api = ApiPrimary> struct VecRun
             }
             else
                 return;
+        case 22: // arguments that alias an element of the vector itself (std::vector guarantees these)
+        {
+            if (n == 0)
+                return;
+            size_t k = s.below(n), pos = s.below(n + 1);
+            int how = (int)s.below(3);
+            int val = m[k];
+            snprintf(name, sizeof name, "v%d.%s(v%d[%zu])@%zu", i, how == 0 ? "push_back" : how == 1 ? "insert" : "emplace", i, k, pos);
+            c.log("%s ", name);
+            c.label("aliasing_argument");
+            if (how == 0)
+            {
+                v.push_back(v[k]);
+                m.push_back(val);
+            }
+            else if (how == 1)
+            {
+                typename V::const_iterator cpos = v.data() + pos;
+                v.insert(cpos, v[k]);
+                m.insert(m.begin() + pos, val);
+            }
+            else
+            {
+                typename V::const_iterator cpos = v.data() + pos;
+                v.emplace(cpos, v[k]);
+                m.insert(m.begin() + pos, val);
+            }
+            if (pos > 0 && pos < n && n >= 2)
+                inner_edit = true;
+            break;
+        }
         default:
             return;
         }
